@@ -23,7 +23,7 @@ Import ListNotations.
 Open Scope string_scope.
 Open Scope Z_scope.
 
-Definition W : Z := 2 ^ 256.
+Definition W : Z := Eval compute in 2 ^ 256.
 
 Inductive sp := Mem | Sto | Tra | Imm | Ret | Log | Bal | Ext | Fmp | Env.
 Definition sp_eqb (a b : sp) : bool :=
@@ -130,8 +130,12 @@ Record ores := mkO { o_outs : list Z; o_cell : store; o_mask : sp -> Z -> bool; 
 Definition oracle := string -> list Z -> Z -> store -> ores.
 
 Definition view (sh : shape) (a : list Z) (st : store) : store := fun s k => if rd sh a s k then st s k else 0.
+(* memory cells are bytes, storage cells are words *)
+Definition norm (s : sp) (v : Z) : Z := match s with Mem => v mod 256 | Sto | Tra => v mod W | _ => v end.
 Definition merge (sh : shape) (a : list Z) (r : ores) (st : store) : store :=
-  fun s k => if wr sh a s k && (sh_must sh || o_mask r s k) then o_cell r s k else st s k.
+  fun s k => if wr sh a s k && (sh_must sh || o_mask r s k) then norm s (o_cell r s k) else st s k.
+Definition wf_store (st : store) : Prop :=
+  forall k, 0 <= st Mem k < 256 /\ 0 <= st Sto k < W /\ 0 <= st Tra k < W.
 
 Record cfg := mkC { cv : N -> Z; cs : store; ct : Z }.
 
@@ -253,17 +257,17 @@ Record exact (X : oracle) (A asz : Z -> Z) : Prop := {
   ex_sub : forall a b t v, o_outs (X "sub" [b; a] t v) = [(a - b) mod W];
   ex_alloca : forall id t v, o_outs (X "alloca" [asz id; id] t v) = [A id];
   ex_store : forall s, is_cell_sp s = true -> forall p w t v i, 0 <= i < width s ->
-      o_cell (X (store_op s) [w; p] t v) s (p + i) = enc s w i;
+      norm s (o_cell (X (store_op s) [w; p] t v) s (p + i)) = enc s (w mod W) i;
   ex_load : forall s, is_cell_sp s = true -> forall p t v, o_outs (X (load_op s) [p] t v) = [dec s (fun i => v s (p + i))];
   ex_A : forall i, 0 <= A i /\ 0 <= asz i /\ A i + asz i < W;
   ex_disj : forall i j, i <> j -> A i + asz i <= A j \/ A j + asz j <= A i }.
 
-(* size of the allocation `id` as declared in f *)
-Definition asz_of (f : func) (id : Z) : Z :=
-  match find (fun i => (i_op i =s "alloca") && match i_args i with [OLit _; OLit d] => d mod W =? id | _ => false end)
-             (List.concat f) with
-  | Some i => match i_args i with [OLit sz; _] => sz mod W | _ => 0 end
-  | None => 0
-  end.
+(* size of the allocation `id` as declared in f (first declaration wins) *)
+Definition alloc_table (f : func) : list (Z * Z) :=
+  flat_map (fun i => if i_op i =s "alloca" then match i_args i with [OLit sz; OLit d] => [(d mod W, sz mod W)] | _ => [] end else [])
+           (List.concat f).
+Fixpoint lookup (T : list (Z * Z)) (id : Z) : Z :=
+  match T with [] => 0 | (d, sz) :: t => if d =? id then sz else lookup t id end.
+Definition asz_of (f : func) : Z -> Z := lookup (alloc_table f).
 
 Definition good (X : oracle) (A : Z -> Z) (f : func) : Prop := X_ext X /\ exact X A (asz_of f).
